@@ -162,8 +162,8 @@ Proof. exact ReloadProofs.get_ok_header. Qed.
 (** For ALL histories of one process over one namespace file (Reload.v: first import =
     find_spec, create_module, exec_module; reload = find_spec, exec_module with the spec the
     importer cached at the first import; import of a loaded module = nothing;
-    invalidate_caches; edits of the source; changes of the cache file), started in a fresh
-    process, in which mtime and size identify the content ([honest_history]: some assignment
+    invalidate_caches; sys.dont_write_bytecode switched on or off; edits of the source;
+    changes of the cache file), started in a fresh process, in which mtime and size identify the content ([honest_history]: some assignment
     [reg] of code to 32-bit stats agrees with every source state, and every cache file put in
     place is absent, shorter than a header, of another magic, a proper prefix of a written
     file, or a complete file for registered content):
@@ -173,25 +173,25 @@ Proof. exact ReloadProofs.get_ok_header. Qed.
       - takes it from the cache only if the cache file's header carries the magic number and
         the CURRENT mtime and size of the source;
       - does take it from the cache when the file is the one written for the current source;
-      - (bytecode writing on, no exception) leaves behind exactly the cache file of the
-        current source and stats; otherwise leaves the file system alone;
+      - (bytecode writing on at that moment, no exception) leaves behind exactly the cache file
+        of the current source and stats; otherwise leaves the file system alone;
       - never touches the source. *)
 Theorem C14_reload_sees_current_source : forall code dumps (loads : bytes -> res code),
   (forall c, loads (dumps c) = Ok c) ->
   (forall c n, (n < length (dumps c))%nat -> loads (firstn n (dumps c)) = Raise EOFError) ->
-  forall src compile run dwb (reg : Z -> Z -> code) (f0 : fs src) (steps : list (step src)),
+  forall src compile run (reg : Z -> Z -> code) (f0 : fs src) (steps : list (step src)),
   honest_history code dumps src compile reg f0 steps ->
   forall f r f' p',
   In (f, OLoad r, (f', p'))
-     (run_hist code dumps loads src compile run false dwb (f0, fresh) steps) ->
+     (run_hist code dumps loads src compile run false (f0, fresh) steps) ->
   let c := compile (f_src f) in
   executed code (r_trace r) = [c] /\ r_raised r = run c /\ p_vars p' = Some c
   /\ (forall c', In (EvRunCached c') (r_trace r) ->
         exists d, f_cache f = Some d /\ header_matches importer_magic (f_mtime f) (f_size f) d)
   /\ (f_cache f = Some (written code dumps src compile f) ->
       in_range (f_mtime f) = true -> in_range (f_size f) = true -> r_trace r = [EvRunCached c])
-  /\ (r_raised r = None -> dwb = false -> f_cache f' = Some (written code dumps src compile f))
-  /\ (r_raised r <> None \/ dwb = true -> f' = f)
+  /\ (r_raised r = None -> p_dwb p' = false -> f_cache f' = Some (written code dumps src compile f))
+  /\ (r_raised r <> None \/ p_dwb p' = true -> f' = f)
   /\ f_src f' = f_src f /\ f_mtime f' = f_mtime f /\ f_size f' = f_size f.
 Proof. exact ReloadProofs.reload_sees_current_source. Qed.
 
@@ -219,7 +219,7 @@ Theorem C14_reload_stale_when_stats_in_spec :
   honest_history tcode (t_dumps TL) N i_compile ex_reg ex_f0 ex_steps
   /\ exists f r f' p',
        In (f, OLoad r, (f', p'))
-          (run_hist tcode (t_dumps TL) (t_loads TL) N i_compile (fun _ => None) true false (ex_f0, fresh) ex_steps)
+          (run_hist tcode (t_dumps TL) (t_loads TL) N i_compile (fun _ => None) true (ex_f0, fresh) ex_steps)
        /\ f_src f = 2%N
        /\ executed tcode (r_trace r) = [i_compile 1%N]
        /\ p_vars p' = Some (i_compile 1%N)
